@@ -31,7 +31,7 @@ void c36_tree_counters(uint64_t &enc, uint64_t &dec);
 
 namespace {
 
-uint64_t nBasic = 0;
+uint64_t nBasic = 0, nTexts = 0;
 
 std::string latin1ToUtf8(const std::string &s) {
     std::string o;
@@ -67,6 +67,8 @@ BasicOut basicDecode(Auth::Basic::Config &cfg, const std::string &header, const 
 // cls: rcValid => must be decoded; rcLenient => may be rejected; returns outcome class
 const char *checkBasic(Auth::Basic::Config &cfg, const std::string &header, const char *realm, RefClass cls, std::string clear, const std::string &what) {
     const BasicOut o = basicDecode(cfg, header, realm);
+    if (V::S().ctx.shard % 3 == 0 && (nBasic % 9001) == 17)
+        V::sample("Basic::decode(\"" + V::esc(header) + "\", casesensitive=" + std::to_string(cfg.casesensitive) + ") -> " + (o.haveUser ? "user \"" + V::esc(o.name) + "\" password " + (o.havePass ? "\"" + V::esc(o.pass) + "\"" : "(none)") : std::string("no user")) + " [" + what + "]");
     const std::string ctx = "Basic decode of \"" + V::esc(header) + "\" (casesensitive=" + std::to_string(cfg.casesensitive) + ", utf8=" + std::to_string(cfg.utf8) + ", realm=" + (realm ? realm : "none") + ", " + what + ")";
     if (cls == rcMalformed) {
         if (o.haveUser) {
@@ -155,6 +157,8 @@ void basicTextCase(const std::string &text) {
 }
 
 void bothRoundTrip(const std::string &raw, bool allSplits) {
+    if (V::S().ctx.shard % 3 == 2 && raw.size() >= 2 && raw.size() <= 5 && ((unsigned char)raw[0] * 7 + raw.size()) % 61 == 3)
+        V::sample("encode(" + V::esc(raw) + ") = \"" + implEncode(raw, 1) + "\" (cut after 1 octet), decodes back at every cut of the text");
     codecRoundTrip(raw, allSplits);
     c36_tree_roundtrip(raw, allSplits);
 }
@@ -225,8 +229,12 @@ void body(V::Ctx &ctx)
                 for (;;) {
                     std::string s = prefix;
                     for (int i : rest) s += alpha[i];
-                    V::outcome(std::string(C36_IMPL ":") + codecDecodeText(s));
-                    V::outcome(std::string("tree-lib-base64:") + c36_tree_decode_text(s));
+                    const char *c1 = codecDecodeText(s);
+                    const char *c2 = c36_tree_decode_text(s);
+                    V::outcome(std::string(C36_IMPL ":") + c1);
+                    V::outcome(std::string("tree-lib-base64:") + c2);
+                    if (V::S().ctx.shard % 3 == 1 && ((++nTexts % 5003) == 11 || (c2[0] != 'm' && nTexts % 37 == 0)))
+                        V::sample("decode(\"" + V::esc(s) + "\") at every cut: lib/base64.cc " + c2 + ", " C36_IMPL " " + c1);
                     if (len <= L - 1) basicTextCase(s);
                     int k = (int)rest.size() - 1;
                     while (k >= 0 && ++rest[k] == NA) { rest[k] = 0; --k; }
